@@ -161,7 +161,10 @@ struct C06 : Prop {
 			phs.push(dp);
 		}
 		se.set("phases", phs);
-		J ss = J::arr(); ss.push(se); plan.set("sessions", ss);
+		// a warm-up session (same start, no traffic) gives the level of library-attributed heap that survives a stop; whatever the main session still
+		// holds in its queues when it is stopped must be released down to that level
+		J warm = J::obj(); warm.set("start", se["start"]); warm.set("phases", J::arr()); warm.set("stop", true); warm.set("warm", true);
+		J ss = J::arr(); ss.push(warm); ss.push(se); plan.set("sessions", ss);
 		{ J sc = sched_json(r, tier, maxt + 1, true); cfg::starve_after_startup(sc, r); plan.set("sched", sc); }
 		return plan;
 	}
@@ -179,7 +182,7 @@ struct C06 : Prop {
 
 	void attach(Engine &e) override {
 		lock_log.clear(); for (int i = 0; i < 3; i++) { expected[i].clear(); exp_pos[i] = 0; model[i].clear(); reads_by_task[i].clear(); read_pos[i].clear(); }
-		log_pos = 0; ops_seen = 0; modelling = false; receiver = -1; overflows = pops = concurrent_pops = state_consumed = 0;
+		log_pos = 0; ops_seen = 0; modelling = false; receiver = -1; base_live = -1; unread_at_stop = stop_heap_checks = 0; overflows = pops = concurrent_pops = state_consumed = 0;
 		for (int i = 0; i < 4; i++) dest_count[i] = 0;
 		debug = !e.plan.getb("normal");
 		sim::lockset_arm(false); sim::lockset_reset_counters();
@@ -196,14 +199,27 @@ struct C06 : Prop {
 			}
 		};
 	}
-	void on_session_start(Engine &, int, int ret) override {
+	int64_t base_live = -1; uint64_t unread_at_stop = 0, stop_heap_checks = 0;
+	static bool is_warm(Engine &e, int s) { return e.plan["sessions"][(size_t) s].getb("warm"); }
+	void on_session_stop(Engine &e, int s) override {
+		if (is_warm(e, s)) { base_live = sim::lib_live_bytes(); return; }
+		if (base_live < 0 || sim::lib_total_allocs() == 0) return;
+		stop_heap_checks++;
+		for (int q = 0; q < 3; q++) unread_at_stop += model[q].size();
+		int64_t live = sim::lib_live_bytes();
+		if (live > base_live)
+			e.violate("QUEUED_MESSAGES_NOT_RELEASED", "bidib_stop", "library-attributed live heap is " + std::to_string(live) + " bytes after bidib_stop, " + std::to_string(live - base_live) + " more than after the traffic-free warm-up session; the model queues held " +
+			          std::to_string(model[0].size()) + " / " + std::to_string(model[1].size()) + " / " + std::to_string(model[2].size()) + " unread messages when the session was stopped");
+	}
+	void on_session_start(Engine &e, int s, int ret) override {
+		if (is_warm(e, s)) return;
 		sim::lockset_arm(ret == 0);
 		const auto &names = sim::lock_names();
 		static const char *qn[3] = {"bidib_uplink_queue_mutex", "bidib_uplink_error_queue_mutex", "bidib_uplink_intern_queue_mutex"};
 		for (int i = 0; i < 3; i++) for (size_t k = 0; k < names.size(); k++) if (names[k] == qn[i]) g_q_ids[i] = (int) k;
 		for (int i = 0; i < sim::task_count(); i++) if (sim::task(i)->name.find("bidib_auto_receive") != std::string::npos) receiver = i;
 	}
-	void before_stop(Engine &, int) override { sim::lockset_arm(false); modelling = false; g_lock_log = nullptr; sim::hooks().on_lock = nullptr; }
+	void before_stop(Engine &e, int s) override { if (is_warm(e, s)) return; if (modelling) replay(e); sim::lockset_arm(false); modelling = false; g_lock_log = nullptr; sim::hooks().on_lock = nullptr; }
 
 	void after_op(Engine &e, OpRec &o) override {
 		(void) e;
@@ -267,6 +283,7 @@ struct C06 : Prop {
 		p.set("glib_container_lockset_checks", (long long) sim::lockset_checks());
 		p.set("overflow_drops", (long long) overflows); p.set("pops_checked", (long long) pops); p.set("runs_with_concurrent_pops", (long long) conc);
 		p.set("to_state", (long long) dest_count[0]); p.set("to_message_queue", (long long) dest_count[1]); p.set("to_error_queue", (long long) dest_count[2]); p.set("to_intern_queue", (long long) dest_count[3]);
+		p.set("heap_level_checks_after_stop", (long long) stop_heap_checks); p.set("messages_still_queued_at_stop", (long long) unread_at_stop);
 		p.set("normal_mode_runs", debug ? 0 : 1); p.set("debug_mode_runs", debug ? 1 : 0);
 		f.set("probes", p);
 	}
